@@ -1,5 +1,6 @@
 import SC.Properties.C02
 import SC.Proofs.SrcCompare
+import SC.Proofs.SrcCompareB2
 /-!
 # C02 — source-level theorems
 
@@ -26,5 +27,20 @@ theorem source_equalFold (s t : Bytes) (h : GoSsa.Heap)
   rw [e, equalFold_refines] at hw
   refine ⟨hw, ?_⟩
   have := (equalFold_eq_std (GoSsa.cfg false) s t).1
+  rwa [equalFold_refines] at this
+/-- the other half of the property: the program text of **`bytcase.EqualFold`** returns `S.equalFold s t`, which is what the transliteration
+    of `bytes.EqualFold` returns — for all byte strings < 2^62 bytes -/
+theorem source_equalFold_bytcase (s t : Bytes) (h : GoSsa.Heap)
+    (hls : s.length < 4611686018427387904) (hlt : t.length < 4611686018427387904) :
+    GoSsa.Ret Gen.Src.byt true Gen.Src.byt_EqualFold [.str s 0 0, .str t 1 0] h [.bool (S.equalFold s t)] h ∧
+    Std.equalFoldB s t = some (S.equalFold s t) := by
+  have hc := GoSsa.Byt.Compare s t 0 0 1 0 h hls hlt
+  have hw := GoSsa.Byt.EqualFold _ _ h h _ hc
+  have e : decide (A.Compare (GoSsa.cfg true) s t = 0) = A.EqualFold (GoSsa.cfg true) s t := by
+    unfold A.EqualFold
+    by_cases hh : A.Compare (GoSsa.cfg true) s t = 0 <;> simp [hh]
+  rw [e, equalFold_refines] at hw
+  refine ⟨hw, ?_⟩
+  have := (equalFold_eq_std (GoSsa.cfg true) s t).2
   rwa [equalFold_refines] at this
 end C02
